@@ -80,6 +80,9 @@ static inline OpMapIt opmap_find(OpMapCX *m, unsigned int key)
 /* CONTAINER INVARIANT (post-condition of prepareAll at the ghost key): a stored operator exists and was built for its key */
 #define MAP_INV(m) (!(m).has || (__CPROVER_is_fresh((m).gval, sizeof(struct FieldOperator)) && (m).gval->Index == (m).gkey))
 #define CONT_BASE(self) (__CPROVER_is_fresh(self, sizeof(*self)) && !VERIF_thrown && __CPROVER_is_fresh(self->IndexInfo, sizeof(struct IndexClassification)))
+/* twins for the other spelling of an increment (`++it` for `it++` and vice versa): same effect.  X_inc yields the iterator after the step
+ * (exact); X_postinc made from X_inc is void, so a use of its value does not compile (UNDECIDED) instead of being modelled wrongly */
+#define IdxSetIt_inc(it_) (IdxSetIt_postinc(it_), (it_))      /* pre-increment: the iterator itself, after the step */
 //@function Pomerol::FieldOperatorContainer::getCreationOperator(unsigned int) const as FOC_getCreationOperator
 //@contract
 __CPROVER_requires(CONT_BASE(self) && MAP_INV(self->mapCreationOperators) && in == self->mapCreationOperators.gkey)
